@@ -13,6 +13,7 @@ import (
 	"fmt"
 	"math/rand"
 	"os"
+	"path/filepath"
 	"sort"
 	"strconv"
 	"testing"
@@ -478,6 +479,33 @@ type verifHoldRealSuite struct {
 func (s *verifHoldRealSuite) SetUpTest(c *C)    {}
 func (s *verifHoldRealSuite) TearDownTest(c *C) {}
 
+type verifHoldRealStep struct {
+	op string // hold, tick, refresh, failed
+	g  string // holder, or the snap refreshed
+	S  []string
+	d  int64
+}
+
+// directed histories for the real-refresh driver (always run first): a failed-and-undone refresh must not move the
+// 90-day bound, in particular for snaps without a recorded last-refresh-time
+func verifHoldRealDirected() [][]verifHoldRealStep {
+	H := func(g string, S ...string) verifHoldRealStep { return verifHoldRealStep{op: "hold", g: g, S: S} }
+	T := func(d int64) verifHoldRealStep { return verifHoldRealStep{op: "tick", d: d} }
+	F := func(sn string) verifHoldRealStep { return verifHoldRealStep{op: "failed", g: sn} }
+	R := func(sn string) verifHoldRealStep { return verifHoldRealStep{op: "refresh", g: sn} }
+	const D = 24
+	return [][]verifHoldRealStep{
+		// the snap holds itself after a failed refresh at day 80
+		{T(80 * D), F("a"), T(D), H("a", "a"), T(19 * D), H("a", "a"), T(D)},
+		// another snap holds it: the 90-day cut-off wins over the 48h
+		{T(89 * D), F("a"), H("b", "a"), T(2 * D), H("b", "a"), H("a", "a")},
+		// control: the same as the first with recorded last-refresh-times
+		{T(80 * D), F("a"), T(D), H("a", "a"), T(19 * D), H("a", "a"), T(D)},
+		// a successful refresh moves the bound, a later failed one does not
+		{T(10 * D), R("a"), T(80 * D), F("a"), T(D), H("a", "a"), T(10 * D), H("a", "a"), F("a"), H("a", "a")},
+	}
+}
+
 func (s *verifHoldRealSuite) TestVerifHoldRealRun(c *C) {
 	out := os.Getenv("VERIF_OUT")
 	n := verifHoldEnvInt("VERIF_N", 5)
@@ -501,6 +529,9 @@ func (s *verifHoldRealSuite) TestVerifHoldRealRun(c *C) {
 	refreshes := 0
 	nextRev := 20
 
+	directed := verifHoldRealDirected()
+	failed := 0
+	n += len(directed)
 	for i := 0; i < n; i++ {
 		if i%perFixture == 0 {
 			if i > 0 {
@@ -518,30 +549,129 @@ func (s *verifHoldRealSuite) TestVerifHoldRealRun(c *C) {
 		st := s.state
 		d.st = st
 		d.caseN = i
+		var script []verifHoldRealStep
+		if i < len(directed) {
+			script = directed[i]
+		}
+		// which snaps have NO recorded last-refresh-time (installed before the attribute existed): their last
+		// refresh is the modification time of the blob of the current revision
+		nilLRT := map[string]bool{}
+		for _, sn := range verifHoldSnaps {
+			if script != nil {
+				nilLRT[sn] = i != 2 // the third directed history is the control with recorded times
+			} else {
+				nilLRT[sn] = r.Intn(2) == 0
+			}
+		}
 		d.now = verifHoldT0
 		st.Set("snaps-hold", nil)
 		for _, sn := range verifHoldSnaps {
 			name := verifHoldReal[sn]
 			si := &snap.SideInfo{RealName: name, SnapID: name + "-id", Revision: snap.R(7), Channel: "latest/stable"}
 			t0 := verifHoldT0
-			snapstate.Set(st, name, &snapstate.SnapState{
+			snapst := &snapstate.SnapState{
 				Active:          true,
 				Sequence:        snapstatetest.NewSequenceFromSnapSideInfos([]*snap.SideInfo{si}),
 				Current:         si.Revision,
 				SnapType:        "app",
 				TrackingChannel: "latest/stable",
-				LastRefreshTime: &t0,
-			})
+			}
+			if nilLRT[sn] {
+				blob := snap.MountFile(name, si.Revision)
+				c.Assert(os.MkdirAll(filepath.Dir(blob), 0755), IsNil)
+				c.Assert(os.WriteFile(blob, nil, 0644), IsNil)
+				c.Assert(os.Chtimes(blob, t0, t0), IsNil)
+			} else {
+				snapst.LastRefreshTime = &t0
+			}
+			snapstate.Set(st, name, snapst)
 		}
 		d.emit("Reset", map[string]interface{}{}, nil)
+
+		hold := func(g string, S []string) {
+			rem, err := snapstate.HoldRefresh(st, snapstate.HoldAutoRefresh, verifHoldReal[g], 0, verifHoldRealNames(S)...)
+			d.emit("Hold", map[string]interface{}{"g": g, "S": S}, d.holdResult(rem, err))
+		}
+		tick := func(dt int64) {
+			d.now = d.now.Add(time.Duration(dt) * time.Hour)
+			d.emit("Tick", map[string]interface{}{"d": dt}, nil)
+		}
+		// a refresh through the real request and the real task runner; fail: a task after link-snap fails, so that
+		// the whole change, link-snap included, is undone by the real undo handlers
+		refresh := func(sn string, fail bool) {
+			name := verifHoldReal[sn]
+			var before snapstate.SnapState
+			c.Assert(snapstate.Get(st, name, &before), IsNil)
+			nextRev++
+			s.fakeStore.refreshRevnos[name+"-id"] = snap.R(nextRev)
+			ts, err := snapstate.Update(st, name, nil, s.user.ID, snapstate.Flags{})
+			c.Assert(err, IsNil)
+			chg := st.NewChange("refresh-snap", "...")
+			chg.AddAll(ts)
+			if fail {
+				terr := st.NewTask("error-trigger", "provoking total undo")
+				for _, t := range ts.Tasks() {
+					if t.Kind() != "check-rerefresh" { // nothing may wait for the re-refresh check
+						terr.WaitFor(t)
+					}
+				}
+				// same lane(s) as the refresh, so that its failure undoes the refresh
+				for _, l := range ts.Tasks()[0].Lanes() {
+					if l != 0 {
+						terr.JoinLane(l)
+					}
+				}
+				chg.AddTask(terr)
+			}
+			// like snapmgrBaseTest.settle, with a watchdog that tolerates an overloaded machine
+			st.Unlock()
+			serr := s.o.Settle(3 * time.Minute)
+			st.Lock()
+			c.Assert(serr, IsNil)
+			refreshes++
+			d.calls++
+			var after snapstate.SnapState
+			c.Assert(snapstate.Get(st, name, &after), IsNil)
+			if fail {
+				c.Assert(chg.Status(), Equals, state.ErrorStatus)
+				c.Assert(after.Current, Equals, before.Current)
+				linked := false
+				for _, t := range chg.Tasks() {
+					if t.Kind() == "link-snap" {
+						c.Assert(t.Status(), Equals, state.UndoneStatus)
+						linked = true
+					}
+				}
+				c.Assert(linked, Equals, true)
+				failed++
+				d.emit("FailedRefresh", map[string]interface{}{"s": sn}, nil)
+			} else {
+				c.Assert(chg.Err(), IsNil)
+				c.Assert(chg.Status(), Equals, state.DoneStatus)
+				d.emit("Refreshed", map[string]interface{}{"s": sn}, nil)
+			}
+		}
+
+		if script != nil {
+			for _, stp := range script {
+				switch stp.op {
+				case "hold":
+					hold(stp.g, stp.S)
+				case "tick":
+					tick(stp.d)
+				case "refresh":
+					refresh(stp.g, false)
+				case "failed":
+					refresh(stp.g, true)
+				}
+			}
+			continue
+		}
 		for k := 0; k < length; k++ {
 			p := r.Intn(100)
 			switch {
 			case p < 35:
-				g := verifHoldSnaps[r.Intn(3)]
-				S := verifHoldSubset(r, false)
-				rem, err := snapstate.HoldRefresh(st, snapstate.HoldAutoRefresh, verifHoldReal[g], 0, verifHoldRealNames(S)...)
-				d.emit("Hold", map[string]interface{}{"g": g, "S": S}, d.holdResult(rem, err))
+				hold(verifHoldSnaps[r.Intn(3)], verifHoldSubset(r, false))
 			case p < 45:
 				S := verifHoldSubset(r, false)
 				durs := []int64{24, 100 * 24, verifHoldForever}
@@ -554,29 +684,12 @@ func (s *verifHoldRealSuite) TestVerifHoldRealRun(c *C) {
 				c.Assert(snapstate.HoldRefreshesBySystem(st, snapstate.HoldLevel(lvl), holdTime, verifHoldRealNames(S)), IsNil)
 				d.calls++
 				d.emit("SystemHold", map[string]interface{}{"S": S, "d": dur, "lvl": lvl}, nil)
+			case p < 60:
+				refresh(verifHoldSnaps[r.Intn(3)], false)
 			case p < 70:
-				sn := verifHoldSnaps[r.Intn(3)]
-				name := verifHoldReal[sn]
-				nextRev++
-				s.fakeStore.refreshRevnos[name+"-id"] = snap.R(nextRev)
-				ts, err := snapstate.Update(st, name, nil, s.user.ID, snapstate.Flags{})
-				c.Assert(err, IsNil)
-				chg := st.NewChange("refresh-snap", "...")
-				chg.AddAll(ts)
-				// like snapmgrBaseTest.settle, with a watchdog that tolerates an overloaded machine
-				st.Unlock()
-				serr := s.o.Settle(3 * time.Minute)
-				st.Lock()
-				c.Assert(serr, IsNil)
-				c.Assert(chg.Err(), IsNil)
-				c.Assert(chg.Status(), Equals, state.DoneStatus)
-				refreshes++
-				d.calls++
-				d.emit("Refreshed", map[string]interface{}{"s": sn}, nil)
+				refresh(verifHoldSnaps[r.Intn(3)], true)
 			default:
-				dt := verifHoldTicks[r.Intn(len(verifHoldTicks))]
-				d.now = d.now.Add(time.Duration(dt) * time.Hour)
-				d.emit("Tick", map[string]interface{}{"d": dt}, nil)
+				tick(verifHoldTicks[r.Intn(len(verifHoldTicks))])
 			}
 		}
 	}
@@ -585,7 +698,7 @@ func (s *verifHoldRealSuite) TestVerifHoldRealRun(c *C) {
 		s.snapmgrBaseTest.TearDownTest(c)
 	}
 	d.w.Flush()
-	fmt.Printf("VERIF-STATS {\"traces\":%d,\"calls\":%d,\"refused\":%d,\"distinct_hold_states\":%d,\"real_refreshes\":%d}\n", n, d.calls, d.refused, len(d.distinct), refreshes)
+	fmt.Printf("VERIF-STATS {\"traces\":%d,\"calls\":%d,\"refused\":%d,\"distinct_hold_states\":%d,\"real_refreshes\":%d,\"failed_undone_refreshes\":%d}\n", n, d.calls, d.refused, len(d.distinct), refreshes, failed)
 }
 
 func TestVerifHoldReal(t *testing.T) {
